@@ -1152,6 +1152,23 @@ def start_prefix_and_ignored_rule(R, mods, bad, stats):
             m.ignored_requests = got
 
 
+def literal_signature(tree, fn):
+    """what a function matches literally: its string/bytes constants and the patterns of the module-level
+    matchers it uses"""
+    sig = set()
+    mods = {}
+    for n in tree.body:
+        if isinstance(n, ast.Assign) and len(n.targets) == 1 and isinstance(n.targets[0], ast.Name):
+            mods[n.targets[0].id] = n.value
+    for n in ast.walk(fn):
+        if isinstance(n, ast.Constant) and isinstance(n.value, (str, bytes)):
+            sig.add(('const', n.value))
+        elif isinstance(n, ast.Name) and isinstance(n.ctx, ast.Load) and n.id in mods \
+                and any(isinstance(c, ast.Constant) and isinstance(c.value, (str, bytes)) for c in ast.walk(mods[n.id])):
+            sig.add(('module', ast.unparse(mods[n.id])))
+    return sig
+
+
 def route_ignored_sets(R, bad, stats):
     """the synthetic rule refers to exactly the rules flagged is_ignored (in declaration order)"""
     for e in emitted_modules()[1]:
@@ -1178,8 +1195,19 @@ def route_ignored_sets(R, bad, stats):
             if e.sub and got[:len(want)] == want and len(got) == len(want) + 1 and got[-1].endswith('_ignored'):
                 got = got[:-1]      # plus the inherited patterns (see known finding KF-combined-ignore)
             if got != want:
-                bad('IGN-rule', f'{label}: the synthetic ignore rule tries {got}, expected exactly the ignored '
-                                f'rules {want}')
+                # a pattern declared without a name cannot be overridden or referred to: it may be matched
+                # in place (then its literals skip like any other literal: requests of the rule itself).
+                # Named patterns are reached by reference, in declaration order.
+                anon = [n for n in ign_names if n.startswith('_anonymous_')]
+                named = [impl(n) for n in ign_names if n not in anon]
+                rest = [g for g in got if g != ifn.name]
+                inplace = all(literal_signature(e.tree, funcs[impl(n)]) <= literal_signature(e.tree, ifn)
+                              and literal_signature(e.tree, funcs[impl(n)]) for n in anon if impl(n) in funcs) \
+                    and all(impl(n) in funcs for n in anon)
+                if not (anon and rest == named and inplace):
+                    bad('IGN-rule', f'{label}: the synthetic ignore rule tries {got}, expected exactly the ignored '
+                                    f'rules {want} (a named pattern by reference, an anonymous one by reference or '
+                                    f'matched in place)')
             # the ignored rules themselves never request the ignore rule recursively through Skip
             # (their literals do, after a match: that is the documented "after every literal")
 
